@@ -154,6 +154,7 @@ pub fn call_full(a: &MP, b: &MP, op: Operation, ft: Ft, pairing: Pairing) -> Cal
     let n = n_edges(a, b);
     hooks::begin_call();
     hooks::set_budget(8 * event_bound(n));
+    let _watch = crate::watch::enter_call(a, b, op, ft);
     let res = match ft {
         Ft::F64 => catch_unwind(AssertUnwindSafe(|| dispatch(a, b, op, pairing))),
         Ft::F32 => {
